@@ -11,6 +11,7 @@ from . import core
 
 REGISTRY = {
     "C19": "treemerge",
+    "C20": "serialize",
     "C01": "objectstore",
     "C04": "objectstore",
     "C06": "objectstore",
